@@ -117,7 +117,7 @@ func c15Pair(t *rapid.T, ev *evProp) {
 		violationOrKnown(t, ev, key("complete"), "honest shuffle proof rejected: %v %s\n%s", err, pn, ctx)
 		return
 	}
-	neg := rapid.SampledFrom([]string{"replace-slot", "duplicate-slot", "swap-slots", "homomorphic-sum", "scale-slot", "drop-reencryption", "swapGH", "otherH", "otherG", "proof-bitflip", "proof-truncate", "other-input", "splice-outputs", "splice-bytes"}).Draw(t, "neg")
+	neg := rapid.SampledFrom([]string{"replace-slot", "duplicate-slot", "swap-slots", "homomorphic-sum", "scale-slot", "drop-reencryption", "swapGH", "otherH", "otherG", "proof-bitflip", "proof-truncate", "other-input", "splice-outputs", "splice-bytes", "drop-output-slot", "add-output-slot", "short-ybar"}).Draw(t, "neg")
 	mxb, myb := append([]kyber.Point(nil), xb...), append([]kyber.Point(nil), yb...)
 	mG, mH, mX, mY, mprf := e.G, e.H, e.X, e.Y, prf
 	applies := true
@@ -154,6 +154,15 @@ func c15Pair(t *rapid.T, ev *evProp) {
 		mprf[pos/8] ^= 1 << uint(pos%8)
 	case "proof-truncate":
 		mprf = prf[:uniformInt(t, 0, len(prf)-1, "len")]
+	case "drop-output-slot":
+		// an output list with one ciphertext fewer / one more than the input is no permutation of it.
+		// The library's vector-length test is an explicit panic: a panic counts as refusal here, a nil
+		// error (for instance a recovered panic turned into "no error") is an accepted forgery
+		mxb, myb = append(append([]kyber.Point(nil), xb[:i]...), xb[i+1:]...), append(append([]kyber.Point(nil), yb[:i]...), yb[i+1:]...)
+	case "add-output-slot":
+		mxb, myb = append(mxb, xb[i]), append(myb, yb[i])
+	case "short-ybar":
+		myb = myb[:k-1]
 	case "other-input":
 		mX = append([]kyber.Point(nil), e.X...)
 		mX[i] = g.Point().Add(e.X[i], e.G)
@@ -188,9 +197,10 @@ func c15Pair(t *rapid.T, ev *evProp) {
 	}
 	if applies {
 		err, pn := pairVerify(e, mG, mH, mX, mY, mxb, myb, mprf)
-		if pn != "" {
+		lengthNeg := neg == "drop-output-slot" || neg == "add-output-slot" || neg == "short-ybar"
+		if pn != "" && !lengthNeg {
 			violationOrKnown(t, ev, "C04/shuffle/"+e.gi.Name+"/verify-panic", "verifier panicked on %s: %s\n%s", neg, pn, ctx)
-		} else if err == nil {
+		} else if pn == "" && err == nil {
 			violationOrKnown(t, ev, key("sound-"+neg), "%s accepted\n%s", neg, ctx)
 		}
 	}
